@@ -424,8 +424,60 @@ def rule_readonly_reopen(ctx):
     return obs
 
 
+def rule_first_key_source(ctx):
+    """first_key is the first stored key: wherever a constructor assigns it from the data, the element read has the width of K.
+    (Reading it through a pointer of a narrower element type - the mapping kept as `char *` - stores the sign-extended low byte
+    in the object and in the file header; everything else still type-checks.)"""
+    obs = []
+    n = 0
+    for f in ctx.need(M + '::MappedPGMIndex', ctx.units):
+        if f.d.get('special') in ('copy_ctor', 'move_ctor') or f.d.get('implicit'):
+            continue
+        u = f.unit
+        kb = None
+        for i in f.all_ids():
+            nd = f.n(i)
+            if nd['c'] != 'BinaryOperator' or nd.get('op') != '=' or not reachable(f, i):
+                continue
+            if strip_cast(f.term(nd['ch'][0], inline=False)) != ('field', 'first_key', THIS):
+                continue
+            lt = u.type(nd.get('t', 0)) or {}
+            kb = lt.get('bits')
+            # the element reads on the right-hand side: *p, p[i], first[...] (both arms of a conditional)
+            reads = []
+            st = [nd['ch'][1]]
+            while st:
+                j = st.pop()
+                nj = f.n(j)
+                if nj['c'] in ('UnaryOperator',) and nj.get('op') == '*':
+                    reads.append(j)
+                elif nj['c'] == 'ArraySubscriptExpr' or (nj['c'] == 'CXXOperatorCallExpr' and nj.get('op') in ('*', '[]')):
+                    reads.append(j)
+                else:
+                    st.extend(nj['ch'])
+            for j in reads:
+                n += 1
+                et = u.type(f.n(j).get('t', 0)) or {}
+                # a caller's range may legitimately hold narrower values (they are converted, K(*first)): only reads through a
+                # pointer of the constructor's own (the mapped input file) must have the width of K
+                opnd = f.n(j)['ch'][0] if f.n(j)['c'] != 'CXXOperatorCallExpr' else f.n(j)['args'][0]
+                ot = strip_cast(f.term(opnd, inline=False))
+                own = ot[0] == 'local'
+                if own and et.get('k') in ('int', 'bool') and kb and et.get('bits', 0) < kb:
+                    obs.append(Ob('CTOR-AGREE', f, j, 'first_key is read from the data as a whole key (an element of the width of K)',
+                                  f"`{fmt_term(f.term(j, inline=False))[:50]}` has type {et.get('s')} ({et.get('bits')} bits) while K has {kb}: only the low part of the first key is stored",
+                                  VIOLATED, arm='first-key-source'))
+                else:
+                    obs.append(Ob('CTOR-AGREE', f, j, 'first_key is read from the data as a whole key (an element of the width of K)',
+                                  f"`{fmt_term(f.term(j, inline=False))[:50]}` of type {et.get('s', '?')}", OK, arm='first-key-source'))
+    if n == 0:
+        obs.append(Ob('CTOR-AGREE', None, 0, 'first_key is read from the data as a whole key', 'no assignment of first_key from an element read found', UNDECIDED, arm='first-key-source',
+                      detail={'subject': M}))
+    return obs
+
+
 def rules_c12(ctx):
-    return rule_ctor_agree(ctx) + rule_init_order(ctx) + rule_ser_agree(ctx) + rule_readonly_reopen(ctx)
+    return rule_ctor_agree(ctx) + rule_init_order(ctx) + rule_first_key_source(ctx) + rule_ser_agree(ctx) + rule_readonly_reopen(ctx)
 
 
 # ------------------------------------------------------------------------------------------ C11: multiset queries
